@@ -209,28 +209,28 @@ func c10r3(c *RC) {
 // produced (not merely propagated), with the facts that must hold there.
 // Confirmed by reading; one line of reason each.
 var eofTable = map[string]struct {
-	need   [][2]string // fact key (without @line) -> value, all required
+	need   [][2]string // normalised fact key (see Flow.NormKey) -> value, all required
 	reason string
 }{
-	"sortio.(*FrameBuffer).Fill":      {[][2]string{{"f.Len", "0"}, {"err", "nil"}}, "an empty read is documented as end of input for merge buffers"},
-	"sortio.(*mergeReader).Read":      {[][2]string{{"n", "0"}}, "nothing left in any buffer"},
-	"sortio.(*reader).Read":           {[][2]string{{"len(r.heap.Buffers)", "0"}}, "all inputs exhausted"},
-	".(*cogroupReader).Read":  {[][2]string{{"n", "0"}}, "nothing left in any buffer"},
-	"sliceio.(*multiReader).Read":     {[][2]string{{"len(m.q)>0", "false"}}, "all readers consumed"},
-	"exec.(*multiReader).Read":        {[][2]string{{"len(m.q)>0", "false"}}, "all readers consumed"},
-	"sliceio.(*frameReader).Read":     {[][2]string{{"f.Frame.Len()", "0"}}, "frame exhausted"},
-	"sliceio.EmptyReader.Read":        {nil, "always empty"},
-	"sliceio.(*Scanner).Scan":         {[][2]string{{"s.atEOF", "true"}}, "upstream already signalled end-of-stream"},
-	"sliceio.(*decodingReader).Read":  {[][2]string{{"d.err", "io.EOF"}}, "byte stream ended at a batch boundary"},
-	"exec.(*taskBufferReader).Read":   {nil, "buffer index reached the end (switch case len(r.q) == r.i)"},
-	".(*constReader).Read":    {[][2]string{{"m", "0"}}, "shard frame exhausted"},
-	".(*flatmapReader).Read":  {[][2]string{{"f.eof", "true"}}, "upstream ended and buffers drained"},
-	".(*headReader).Read":     {[][2]string{{"h.n<=0", "true"}}, "quota used up"},
-	".(*scanReader).Read":     {[][2]string{{"err", "nil"}}, "scan callback finished"},
-	".(*stringAccumulator).Read": {[][2]string{{"len(s.state)", "0"}}, "accumulator drained"},
-	".(*intAccumulator).Read":    {[][2]string{{"len(s.state)", "0"}}, "accumulator drained"},
-	".(*int64Accumulator).Read":  {[][2]string{{"len(s.state)", "0"}}, "accumulator drained"},
-	".skip":                      {[][2]string{{"err", "nil"}}, "the line scanner stopped (Scan false) without an error"},
+	"sortio.(*FrameBuffer).Fill":     {[][2]string{{"$r.Len", "0"}, {"$error", "nil"}}, "an empty read is documented as end of input for merge buffers"},
+	"sortio.(*mergeReader).Read":     {[][2]string{{"$int", "0"}}, "nothing was produced: no buffer is left"},
+	"sortio.(*reader).Read":          {[][2]string{{"len($r.heap.Buffers)", "0"}}, "all inputs exhausted"},
+	".(*cogroupReader).Read":         {[][2]string{{"$int", "0"}}, "nothing was produced: no buffer is left"},
+	"sliceio.(*multiReader).Read":    {[][2]string{{"len($r.q)>0", "false"}}, "all readers consumed"},
+	"exec.(*multiReader).Read":       {[][2]string{{"len($r.q)>0", "false"}}, "all readers consumed"},
+	"sliceio.(*frameReader).Read":    {[][2]string{{"$r.Frame.Len()", "0"}}, "frame exhausted"},
+	"sliceio.EmptyReader.Read":       {nil, "always empty"},
+	"sliceio.(*Scanner).Scan":        {[][2]string{{"$r.atEOF", "true"}}, "upstream already signalled end-of-stream"},
+	"sliceio.(*decodingReader).Read": {[][2]string{{"$r.err", "io.EOF"}}, "byte stream ended at a batch boundary"},
+	"exec.(*taskBufferReader).Read":  {nil, "buffer index reached the end (switch case len(r.q) == r.i)"},
+	".(*constReader).Read":           {[][2]string{{"$int", "0"}}, "shard frame exhausted"},
+	".(*flatmapReader).Read":         {[][2]string{{"$r.eof", "true"}}, "upstream ended and buffers drained"},
+	".(*headReader).Read":            {[][2]string{{"$r.n<=0", "true"}}, "quota used up"},
+	".(*scanReader).Read":            {[][2]string{{"$error", "nil"}}, "scan callback finished"},
+	".(*stringAccumulator).Read":     {[][2]string{{"len($r.state)", "0"}}, "accumulator drained"},
+	".(*intAccumulator).Read":        {[][2]string{{"len($r.state)", "0"}}, "accumulator drained"},
+	".(*int64Accumulator).Read":      {[][2]string{{"len($r.state)", "0"}}, "accumulator drained"},
+	".skip":                          {[][2]string{{"$error", "nil"}}, "the line scanner stopped (Scan false) without an error"},
 }
 
 // eofSites checks every site in fns where the sentinel sliceio.EOF is used as
@@ -308,7 +308,7 @@ func eofSites(c *RC, fns []*Func) {
 						for _, need := range entry.need {
 							got := ""
 							for _, f := range s.Facts {
-								if stripAt(f.key) == need[0] && f.eq {
+								if fl.NormKey(f.key) == need[0] && f.eq && (got == "" || f.val == need[1]) {
 									got = f.val
 								}
 							}
